@@ -118,6 +118,7 @@ static void h_run_case(hcase_t* c) {
   if (n > 0) {
     rt_reg((void*)&target->detach_state, 4, 500, 4);
     rt_reg((void*)&target->join_info, 8, 501, 8);
+    rt_reg_rest(target, sizeof *target, 3900);   /* search mode only: the rest of the target fiber_t */
   }
   t1_run(n, prog, c->sched, c->nsched, dmax);
   rt_print_trace();
